@@ -260,6 +260,7 @@ def install(ex):
     ex.hooks.setdefault("getattr_ref", []).append(sg_props)
     install_eq(ex)
     install_axes(ex)
+    install_counts(ex)
 
 
 # =================================================================================================
@@ -335,6 +336,7 @@ def register(reg):  # noqa: F811
     register_canonical_callers(reg)
     register_nogrid(reg)
     register_axes(reg)
+    register_counts(reg)
 
 
 _BG = {"name": "grid-layouts", "script": "replay/drivers/bnd_grids.py", "args": ["--json"], "timeout": 3000}
@@ -651,3 +653,133 @@ def register_axes(reg):
         reg.add(Contract(f"{SG}.data_axes", self_cls="StructuredGrid", props=["C14.1"], params={}, pure=True, modifies=lambda ctx: [],
                          requires=wf, ensures=da_post, name=f"data_axes{tag}", primary=False,
                          inline_calls=[f"{SG}.cell_axes"]))
+
+
+
+# =================================================================================================
+# StructuredGrid.point_count / cell_count / data_shape (C14.2): sizes of the index space the coordinates are generated for
+# =================================================================================================
+SIZE = lambda items: arr.size_of(list(items))    # product of the entries (uninterpreted for more than one factor: no non-linear arithmetic)
+
+
+def vec(items):
+    """a numpy integer vector of concrete length (np.array of a dims tuple): element-wise operations stay per entry"""
+    items = list(items)
+
+    def at(idx, items=items):
+        r = items[-1]
+        for k in range(len(items) - 2, -1, -1):
+            r = If(idx[0] == k, items[k], r)
+        return r
+
+    v = SArr((z3.IntVal(len(items)),), at, "int")
+    v.items = items
+    return v
+
+
+def _ite_vec(c, a, b):
+    ia, ib = getattr(a, "items", None), getattr(b, "items", None)
+    if isinstance(a, SArr) and isinstance(b, SArr) and ia is not None and ib is not None and len(ia) == len(ib):
+        return vec([If(c, x, y) for x, y in zip(ia, ib)])
+    return None
+
+
+sv.ITE_HOOKS.insert(0, _ite_vec)
+
+
+def install_counts(ex):
+    import ast as _ast
+
+    def is_vec(a):
+        return isinstance(a, SArr) and getattr(a, "items", None) is not None
+
+    def to_vec(ex, path, args, kwargs, node):
+        a = args[0]
+        if isinstance(a, sv.STup) and a.items and all(isinstance(x, sv.SInt) for x in a.items) and not kwargs and len(args) == 1:
+            return vec([x.e for x in a.items])
+        if is_vec(a) and not kwargs and len(args) == 1:
+            return a
+        return NotImplemented
+
+    def np_maximum(ex, path, args, kwargs, node):
+        if len(args) == 2 and is_vec(args[0]) and isinstance(args[1], sv.SInt) and not kwargs:
+            c = args[1].e
+            return vec([If(x >= c, x, c) for x in args[0].items])
+        if len(args) == 2 and isinstance(args[0], sv.SInt) and isinstance(args[1], sv.SInt) and not kwargs:
+            return sv.SInt(If(args[0].e >= args[1].e, args[0].e, args[1].e))
+        return NotImplemented
+
+    def np_prod(ex, path, args, kwargs, node):
+        if len(args) == 1 and is_vec(args[0]) and not kwargs:
+            return sv.SInt(SIZE(args[0].items))
+        return NotImplemented
+
+    def wrap(name, fn):
+        old = ex.ext_models.get(name)
+
+        def model(ex, path, args, kwargs, node):
+            r = fn(ex, path, args, kwargs, node)
+            if r is NotImplemented:
+                if old is None:
+                    raise Unsupported(f"call of external function {name} on {args}", node)
+                return old(ex, path, args, kwargs, node)
+            return r
+
+        ex.ext_models[name] = model
+
+    for nm, fn in (("array", to_vec), ("asarray", to_vec), ("maximum", np_maximum), ("prod", np_prod)):
+        wrap(f"numpy.{nm}", fn)
+        ex.pure_ext.add(f"np.{nm}")
+
+    def vec_binop(ex, op, a, b, path, node):
+        if is_vec(a) and isinstance(b, sv.SInt):
+            if isinstance(op, _ast.Sub):
+                return vec([x - b.e for x in a.items])
+            if isinstance(op, _ast.Add):
+                return vec([x + b.e for x in a.items])
+        return None
+
+    ex.hooks.setdefault("binop", []).insert(0, vec_binop)
+
+    def builtin(ex, name, args, kwargs, path, node):
+        if name == "tuple" and len(args) == 1 and is_vec(args[0]):
+            return sv.STup([sv.SInt(x) for x in args[0].items])
+        return None
+
+    ex.hooks.setdefault("builtin", []).insert(0, builtin)
+
+
+def register_counts(reg):
+    LOC = lambda ctx, g: ctx.get(g, "_data_location").e       # 0 = CELLS, 1 = POINTS
+    for d in DIMS:
+        tag = f"<d={d}>"
+        PROPS[d]["dims"] = lambda ctx, d=d: sv.STup([sv.SInt(NPTS(ctx.self.e, z3.IntVal(k))) for k in range(d)])
+
+        def wf(ctx, d=d):
+            return And(gdim(ctx, ctx.self) == d, *[NPTS(ctx.self.e, z3.IntVal(k)) >= 1 for k in range(d)])
+
+        npts = lambda ctx, k: NPTS(ctx.self.e, z3.IntVal(k))
+        ncell = lambda ctx, k: If(npts(ctx, k) - 1 >= 1, npts(ctx, k) - 1, z3.IntVal(1))
+
+        reg.add(Contract(f"{SG}.point_count", self_cls="StructuredGrid", props=["C14.2"], params={}, pure=True, modifies=lambda ctx: [], requires=wf,
+                         ensures=lambda ctx, r, d=d: {"product of the axis lengths": r.e == SIZE([npts(ctx, k) for k in range(d)])},
+                         name=f"point_count{tag}", primary=False))
+        reg.add(Contract(f"{SG}.cell_count", self_cls="StructuredGrid", props=["C14.2"], params={}, pure=True, modifies=lambda ctx: [], requires=wf,
+                         ensures=lambda ctx, r, d=d: {"product over the axes of max(points - 1, 1): a single-point axis contributes one layer of cells":
+                                                       r.e == SIZE([ncell(ctx, k) for k in range(d)])},
+                         name=f"cell_count{tag}", primary=False))
+
+        def ds_post(ctx, r, d=d):
+            items = getattr(r, "items", None)
+            if items is None or len(items) != d or not all(isinstance(x, sv.SInt) for x in items):
+                return {"one extent per data dimension": z3.BoolVal(False)}
+            g = ctx.self
+            out = {}
+            for m in range(d):
+                phys = If(rev(ctx, g), z3.IntVal(d - 1 - m), z3.IntVal(m))
+                want = If(rev(ctx, g), If(LOC(ctx, g) == 0, ncell(ctx, d - 1 - m), npts(ctx, d - 1 - m)), If(LOC(ctx, g) == 0, ncell(ctx, m), npts(ctx, m)))
+                out[f"data dimension {m}: extent of its physical axis (cells: max(points - 1, 1))"] = items[m].e == want
+            return out
+
+        reg.add(Contract(f"{SG}.data_shape", self_cls="StructuredGrid", props=["C14.2"], params={}, pure=True, modifies=lambda ctx: [], requires=wf,
+                         ensures=ds_post, name=f"data_shape{tag}", primary=False))
